@@ -258,7 +258,7 @@ pub fn run_c14(ctx: &Ctx) -> i32 {
     } else {
         rep.inconclusive("public-batch circuit over the fake inner did not build");
     }
-    rep.finish(ctx, ctx.tier.pick(40, 100))
+    rep.finish(ctx, ctx.tier.pick(20, 100))
 }
 
 // ---------------------------------------------------------------------------
@@ -475,5 +475,5 @@ pub fn run_c15(ctx: &Ctx) -> i32 {
             prover.verif_rearm(targets.clone());
         }
     }
-    rep.finish(ctx, ctx.tier.pick(1000, 20000))
+    rep.finish(ctx, ctx.tier.pick(500, 10000))
 }
